@@ -219,11 +219,12 @@
 ;; query encoding and decoding
 
 (define (uri-safe-char? ch)
-  (or (char-alphabetic? ch)
-      (char-numeric? ch)
-      (case ch
-        ((#\- #\_ #\. #\! #\~ #\* #\' #\( #\)) #t)
-        (else #f))))
+  (and (< (char->integer ch) 128)
+       (or (char-alphabetic? ch)
+           (char-numeric? ch)
+           (case ch
+             ((#\- #\_ #\. #\! #\~ #\* #\' #\( #\)) #t)
+             (else #f)))))
 
 (define (collect str from to res)
   (if (string-cursor>=? from to)
@@ -241,12 +242,29 @@
     (if (eqv? ch #\space)
         "+"
         (encode-1-normal ch)))
-  (define (encode-1-normal ch)
-    (let* ((i (char->integer ch))
-           (hex (number->string i 16)))
+  (define (encode-byte i)
+    (let ((hex (number->string i 16)))
       (if (< i 16)
           (string-append "%0" hex)
           (string-append "%" hex))))
+  ;; non-ASCII characters are escaped as their utf-8 bytes
+  (define (encode-1-normal ch)
+    (let ((i (char->integer ch)))
+      (cond
+       ((< i #x80)
+        (encode-byte i))
+       ((< i #x800)
+        (string-append (encode-byte (+ #xC0 (quotient i 64)))
+                       (encode-byte (+ #x80 (remainder i 64)))))
+       ((< i #x10000)
+        (string-append (encode-byte (+ #xE0 (quotient i 4096)))
+                       (encode-byte (+ #x80 (remainder (quotient i 64) 64)))
+                       (encode-byte (+ #x80 (remainder i 64)))))
+       (else
+        (string-append (encode-byte (+ #xF0 (quotient i 262144)))
+                       (encode-byte (+ #x80 (remainder (quotient i 4096) 64)))
+                       (encode-byte (+ #x80 (remainder (quotient i 64) 64)))
+                       (encode-byte (+ #x80 (remainder i 64))))))))
   (let ((start (string-cursor-start str))
         (end (string-cursor-end str))
         (encode-1 (if (and (pair? o) (car o))
@@ -271,9 +289,60 @@
 ;;> argument \var{plus?} is true.
 
 (define (uri-decode str . o)
+  (define (hex-digit ch)
+    (let ((i (char->integer ch)))
+      (cond ((<= 48 i 57) (- i 48))
+            ((<= 65 i 70) (- i 55))
+            ((<= 97 i 102) (- i 87))
+            (else #f))))
   (let ((space-as-plus? (and (pair? o) (car o)))
         (start (string-cursor-start str))
         (end (string-cursor-end str)))
+    ;; the byte denoted by the escape at cursor i, or #f if there is
+    ;; no complete %XX escape there
+    (define (escape-byte i)
+      (and (string-cursor<? i end)
+           (eqv? #\% (string-cursor-ref str i))
+           (let ((i1 (string-cursor-next str i)))
+             (and (string-cursor<? i1 end)
+                  (let ((i2 (string-cursor-next str i1)))
+                    (and (string-cursor<? i2 end)
+                         (let ((hi (hex-digit (string-cursor-ref str i1)))
+                               (lo (hex-digit (string-cursor-ref str i2))))
+                           (and hi lo (+ (* hi 16) lo)))))))))
+    (define (skip-escape i)
+      (string-cursor-next
+       str (string-cursor-next str (string-cursor-next str i))))
+    ;; Decodes the escape with value b at cursor i, returning the
+    ;; character and the cursor after it.  A run of escapes forming
+    ;; a valid utf-8 sequence is one character, any other byte
+    ;; stands for the character with that code.
+    (define (decode-escape b i)
+      (let* ((next (skip-escape i))
+             (n (cond ((<= #xC2 b #xDF) 1)
+                      ((<= #xE0 b #xEF) 2)
+                      ((<= #xF0 b #xF4) 3)
+                      (else 0))))
+        (let lp ((k n)
+                 (j next)
+                 (acc (case n
+                        ((1) (- b #xC0))
+                        ((2) (- b #xE0))
+                        (else (- b #xF0)))))
+          (cond
+           ((zero? n)
+            (cons (integer->char b) next))
+           ((zero? k)
+            (if (and (>= acc (case n ((1) #x80) ((2) #x800) (else #x10000)))
+                     (<= acc #x10FFFF)
+                     (not (<= #xD800 acc #xDFFF)))
+                (cons (integer->char acc) j)
+                (cons (integer->char b) next)))
+           (else
+            (let ((c (escape-byte j)))
+              (if (and c (<= #x80 c #xBF))
+                  (lp (- k 1) (skip-escape j) (+ (* acc 64) (- c #x80)))
+                  (cons (integer->char b) next))))))))
     (let lp ((from start) (to start) (res '()))
       (if (string-cursor>=? to end)
           (if (string-cursor<=? from start)
@@ -283,16 +352,20 @@
                  (next (string-cursor-next str to)))
             (cond
              ((eqv? ch #\%)
-              (if (string-cursor>=? next end)
-                  (lp next next (collect str from to res))
-                  (let ((next2 (string-cursor-next str next)))
-                    (if (string-cursor>=? next2 end)
-                        (lp next2 next2 (collect str from to res))
-                        (let* ((next3 (string-cursor-next str next2))
-                               (hex (substring-cursor str next next3))
-                               (i (string->number hex 16)))
-                          (lp next3 next3 (cons (string (integer->char i))
-                                                (collect str from to res))))))))
+              (cond
+               ((escape-byte to)
+                => (lambda (b)
+                     (let ((x (decode-escape b to)))
+                       (lp (cdr x) (cdr x)
+                           (cons (string (car x)) (collect str from to res))))))
+               ((string-cursor>=? next end)
+                (lp next next (collect str from to res)))
+               ((string-cursor>=? (string-cursor-next str next) end)
+                (let ((next2 (string-cursor-next str next)))
+                  (lp next2 next2 (collect str from to res))))
+               (else
+                ;; not an escape, keep the percent sign
+                (lp from next res))))
              ((and space-as-plus? (eqv? ch #\+))
               (lp next next (cons " " (collect str from to res))))
              (else
